@@ -645,6 +645,12 @@ def xsection_undetermined(plane, mname, a, b):
         return True
     if mname == "line_segment_xsection":
         t = sum((r - x) * m for r, x, m in zip(ref, a, n)) / d
+        if t == 0 or t == 1:
+            # an end point exactly on an axis-aligned plane, small dyadic coordinates: every operation of both twins is
+            # exact, so the row is compared (both must report that end point)
+            ax = [i for i in range(3) if n[i] != 0]
+            exact = axis and all(x.denominator <= 1024 and abs(x) <= 1024 for x in a + b + [ref[i] for i in ax])
+            return not exact
         if abs(t) < Fr(1, 10 ** 9) or abs(t - 1) < Fr(1, 10 ** 9):
             return True
     return False
@@ -694,6 +700,16 @@ def make_stack(spec):
     def build():
         S = make_self(sk)
         A = build_args(e, shapes, S, spec["seed"])
+        if spec["stream"] == "lattice" and A is not None and e.name == "Plane.line_segment_xsections" and sk == "plane_axis":
+            # rows that end / start exactly on the plane y = 2 (small dyadic coordinates: exact in both twins)
+            if k >= 1:
+                A["b"][0, 1] = 2.0
+                if A["a"][0, 1] == 2.0:
+                    A["a"][0, 1] = -1.5
+            if k >= 2:
+                A["a"][1, 1] = 2.0
+                if A["b"][1, 1] == 2.0:
+                    A["b"][1, 1] = 3.5
         if spec["stream"] in ("float", "float-mixed") and A is not None:
             g = np.random.default_rng(spec["seed"] + 7)
             for a, kind in e.args:
